@@ -5,6 +5,7 @@ import (
 	"fmt"
 	"os"
 	"reflect"
+	"sync"
 	"testing"
 	"time"
 
@@ -513,6 +514,80 @@ func genCfg(t *rapid.T) cfgCase {
 	return c
 }
 
+// slow consumer at shutdown: the application's event callback is still busy with one event while a second one is already
+// being handed over and the stop signal is given; it finishes `hold` later. Nothing may panic (a panic in the handing-over
+// goroutine is caught here; one in a library goroutine kills the process, which the driver reports).
+type slowCase struct {
+	HoldMs int `json:"hold_ms"`
+}
+
+type blockRec struct {
+	once    sync.Once
+	entered chan struct{}
+	release chan struct{}
+}
+
+func (r *blockRec) OnConnected() {}
+func (r *blockRec) OnEvent(s *types.Status) {
+	first := false
+	r.once.Do(func() { first = true })
+	if first {
+		close(r.entered)
+		<-r.release
+	}
+}
+func (r *blockRec) OnError(error) bool { return true }
+
+func checkSlow(c slowCase) *rp.Fail {
+	ev.Case("listener/slow-consumer-at-stop", true, fmt.Sprint(c))
+	u, d := hook.Mem(hook.ClientCfg{HasListen: true, ListenIP: [4]byte{127, 0, 0, 1}, ListenPort: 60001})
+	r := &blockRec{entered: make(chan struct{}), release: make(chan struct{})}
+	q := make(chan os.Signal)
+	done := make(chan error, 1)
+	go func() { done <- u.Listen(r, q) }()
+	for i := 0; i < 20000; i++ {
+		if pn := try(func() { d.Push(nil) }); pn == nil {
+			break
+		}
+		time.Sleep(20 * time.Microsecond)
+	}
+	evt := func(ix byte) []byte {
+		b := make([]byte, 64)
+		spec.Header(b, 0x17, 0x20, serial)
+		b[8], b[12] = ix, 1
+		return b
+	}
+	panics := make(chan any, 2)
+	push := func(b []byte) { go func() { panics <- try(func() { d.Push(b) }) }() }
+	push(evt(1))
+	select {
+	case <-r.entered:
+	case <-time.After(5 * time.Second):
+		return rp.Failf("uhppote.Listen/no-event", "no event callback within 5 s")
+	}
+	push(evt(2)) // blocks in the library's handler: the dispatcher is busy
+	time.Sleep(5 * time.Millisecond)
+	close(q)
+	time.Sleep(time.Duration(c.HoldMs) * time.Millisecond)
+	close(r.release)
+	for i := 0; i < 2; i++ {
+		select {
+		case pn := <-panics:
+			if pn != nil {
+				return rp.Failf("uhppote.Listen/panic-at-shutdown", "stop signalled while the event callback was busy for %d ms and another event was being handed over: %v", c.HoldMs, pn)
+			}
+		case <-time.After(8 * time.Second):
+			return rp.Failf("uhppote.Listen/stuck-at-shutdown", "event hand-over still blocked 8 s after the callback returned")
+		}
+	}
+	select {
+	case <-done:
+	case <-time.After(8 * time.Second):
+		return rp.Failf("uhppote.Listen/does-not-stop", "Listen has not returned 8 s after the callback returned")
+	}
+	return nil
+}
+
 func props() []rp.Prop {
 	n := ev.Pick(30000, 1500000) / ev.Shards()
 	return []rp.Prop{
@@ -521,6 +596,13 @@ func props() []rp.Prop {
 		rp.P[replyCase]{Name: "listener", Checks: n / 6, Gen: genListen, Check: checkListen},
 		rp.P[api.Case]{Name: "args", Checks: n, Gen: genArgs, Check: checkArgs},
 		rp.P[cfgCase]{Name: "config", Checks: n / 10, Gen: genCfg, Check: checkCfg},
+		rp.P[slowCase]{Name: "slow-consumer", Sweep: func(yield func(slowCase) bool) {
+			for _, h := range []int{0, 40, 3200} {
+				if (h < 1000 || ev.Shard() == 0) && !yield(slowCase{h}) {
+					return
+				}
+			}
+		}, Check: checkSlow},
 	}
 }
 
